@@ -189,6 +189,13 @@ def check_bounds_from_routing(ck, P, rid):
                 asg = asg.parent
             rhs = asg.children[1]
             pcs = [p for p in partition_calls(f) if p["node"].is_inside(rhs) or p["node"] is X.strip(rhs)]
+            if not pcs:
+                # the search result may sit in a single-definition local (`next_first = partition_start(...); n = next_first - first`)
+                for x in rhs.walk():
+                    if x.k == "DeclRefExpr" and x.d.get("sc") == "local":
+                        r2 = Q.resolve_local(f, x)
+                        if r2 is not None and not (r2.k == "DeclRefExpr" and r2.did == x.did):
+                            pcs += [p for p in partition_calls(f) if p["node"].is_inside(r2) or p["node"] is X.strip(r2) or r2.is_inside(p["node"])]
             if len(pcs) != 1:
                 ck.violated(rid, inst, asg.where, "%s is not computed by partition_start (%s): ownership bounds must be derived from the routing function itself" % (var, X.show(rhs)[:70]), cfg)
                 continue
